@@ -33,7 +33,7 @@ CHECKS.update({
     ),
     "C02": dict(
         text="Lean 4 theorems: erasing the inserted QUANTIZE/DEQUANTIZE ops from the performer's result and mapping derived tensors back gives exactly the input graph (same ops, order, operands, results; no tensor renamed/reshaped/dropped; inputs unchanged; graph outputs and signature outputs denote the same original tensors; signature keys/argument names kept) — performer_skeleton / modify_skeleton, for every well-formed input and every request set of the registered algorithms' shape. Independent Python skeleton/IO oracle on every generated case.",
-        note="'inputs/outputs stay float32 unless INPUT/OUTPUT is covered' is checked by the oracle using the real RecipeManager resolution; op options are represented by the orig tag (untouched by construction of the model, compared by the oracle)",
+        note="END TO END incl. the I/O contract (QProps/C02b): graph inputs never retargeted; every output position holds the original tensor or a same-shaped new tensor standing for it, created by an inserted QUANTIZE/DEQUANTIZE and named <name>_quantized/_dequant made unique (io_counts_names_shapes, uniqueName_form/_fresh); signatures keep key/subgraph/argument names and follow a retargeted output (io_signatures, sig_outputs_aligned); INPUT resp. OUTPUT resolved to no-quantize => graph inputs keep their records resp. every output position has the original dtype and no parameters (io_float_unless_covered, io_dtype_unless_covered). Skeleton: quantize_skeleton. Operator options are represented by the orig tag (untouched by construction of the model) and compared by execution",
         design="§6 C02",
     ),
     "C03": dict(
@@ -101,7 +101,7 @@ CHECKS.update({
     ),
     "C18": dict(
         text="Lean 4 theorems on the validation model: mse / median-diff-ratio are 0 on identical tensors, non-negative, symmetric where stated; comparison produces exactly one entry per common tensor name, inputs are filed under their names; self-comparison is all-zero. Executed: validate() on generated models vs the model's metric arithmetic (exact), float-vs-float self comparison, one entry per flatbuffer tensor.",
-        note="the interpreter runs are external inputs of the model; interpreter-internal scratch tensors are ignored",
+        note="C18b: the whole compare_model is specified and proved on the model: which names are reported, in which single group, with which value (mean in sample order of the metric of the dequantized contents), self comparison files 0 everywhere, non-negativity, MSE symmetry, and an iff characterisation of success and of every failure; the interpreter runs are external inputs of the model; interpreter-internal scratch tensors are ignored; cases hit by finding D27 (runtime results depend on uninitialised memory) are not compared numerically",
         design="§6 C18",
     ),
 })
